@@ -542,7 +542,7 @@ def build_evidence(pid, P, tier, seed, wall, units, unit_results, canary_results
     }
     if stability is not None:
         cov['stability_runs'] = stability
-    level = P.get('level', 'proof')
+    level = props.norm_level(P.get('level', 'proof'))
     if level == 'proof' and (obligations == 0 or discharged != obligations):
         # this run did not discharge everything (violation or undecided): do not claim proof level for it
         level = 'other'
